@@ -63,10 +63,13 @@ Definition final_status (fixed fork : bool) (flt : option (phase * fault)) : N :
 
 Definition exit_zero (st : N) : bool := WIFEXITED st && (WEXITSTATUS st =? 0).
 
-(* the output file is complete iff P::write_output_file returned, i.e. no fault before Written *)
+(* the output file is on disk and complete iff P::write_output_file returned — no fault before Written — and no ERROR
+   was returned inside Linker::run afterwards (points Written, Verified): link_for_arch then removes the output
+   (remove_after_failed_link, the C18 repair).  Panics / signals leave it; faults after run() returned leave it. *)
+Definition is_error (f : fault) : bool := match f with FError => true | _ => false end.
 Definition output_complete (fork : bool) (flt : option (phase * fault)) : bool :=
   match flt with
-  | Some (p, _) => negb (reached fork p) || (4 <=? phase_ix p)
+  | Some (p, f) => negb (reached fork p) || ((4 <=? phase_ix p) && negb (is_error f && (phase_ix p <=? 5)))
   | None => true
   end.
 
